@@ -135,9 +135,11 @@ def _strategy(mode):
             ws = draw(st.sampled_from([0.1, 0.5, 1.0]))
             if mode == "tight":
                 N = 1
-            case = {"Dx": Dx, "Dy": Dy, "Da": Da, "Dk": Dk, "N": N, "kind": kind, "mode": mode,
+            # class mixture: an exactly diagonal p(x) handed over as a GaussianDiagPDF (a fifth of the cases with Dx >= 2)
+            px_diag = Dx >= 2 and mode != "coherence" and draw(st.sampled_from([False] * 4 + [True]))
+            case = {"Dx": Dx, "Dy": Dy, "Da": Da, "Dk": Dk, "N": N, "kind": kind, "mode": mode, "px_diag": px_diag,
                     "c": draw(gen.het_params(kind, Dx, Dy, Da, Dk, wscale=1.0 if mode == "tight" else ws, big_offsets=(mode != "coherence"))),
-                    "px": {"Sigma": draw(gen.spd(N, Dx, kappa=8.0, lam_lo=0.2, lam_hi=0.5)), "mu": draw(gen.arr((N, Dx), -1.5, 1.5))},
+                    "px": {"Sigma": draw(gen.spd(N, Dx, kappa=8.0, lam_lo=0.2, lam_hi=0.5, diag=px_diag)), "mu": draw(gen.arr((N, Dx), -1.5, 1.5))},
                     "y": draw(gen.arr((N, Dy), -2.5, 2.5)), "x": draw(gen.arr((3, Dx), -2, 2))}
             return case
         return s()
@@ -209,7 +211,7 @@ def _lb(c, case, W=None):
     from .. import libx
     from ..libx import J
 
-    px = libx.make_measure("pdf", case["px"])
+    px = libx.make_measure("diag_pdf" if case.get("px_diag") else "pdf", case["px"])
     return np.asarray(c.integrate_log_conditional_y(px, y=J(case["y"])), float).reshape(-1)
 
 
@@ -337,7 +339,7 @@ def _overlap(case):
 
 
 def _labels(case):
-    return [f"kind={case['kind']}", "Da>Dy" if case["Da"] > case["Dy"] else "Da=Dy", f"Dx={case['Dx']}", f"Dk={case['Dk']}", f"wscale={case['c']['wscale']}"]
+    return [f"kind={case['kind']}", "Da>Dy" if case["Da"] > case["Dy"] else "Da=Dy", f"Dx={case['Dx']}", f"Dk={case['Dk']}", f"wscale={case['c']['wscale']}", "px=diag_class" if case.get("px_diag") else "px=full_class"]
 
 
 SUBS = [
